@@ -25,6 +25,9 @@ type Profile struct {
 	Foreign      int  // percentage of unlocks issued from a session other than the holder's
 	FixedCfg     *impl.Cfg
 	GcOn         bool
+	RenewW       int // weight of renews (default 10)
+	NameCount    int // restrict the name alphabet to its first NameCount entries (0 = all)
+	LeaseFocus   bool
 }
 
 var DefaultProfile = Profile{Ops: 40, Restart: 3, Gc: 3, Ipc: 0, Blocking: 10, Invalid: 15, Foreign: 30}
@@ -105,12 +108,18 @@ func (g *Gen) lt() *int32 {
 	if g.r.Chance(g.p.Invalid / 2) {
 		return p32(-1)
 	}
+	if g.p.LeaseFocus {
+		return common.Pick(g.r, []*int32{nil, p32(1), p32(2), p32(2), p32(3), p32(5)})
+	}
 	return common.Pick(g.r, []*int32{nil, nil, p32(0), p32(1), p32(2), p32(2), p32(5)})
 }
 
 func (g *Gen) name() string {
 	if g.r.Chance(g.p.Invalid / 3) {
 		return ""
+	}
+	if g.p.NameCount > 0 {
+		return names[g.r.Intn(g.p.NameCount)]
 	}
 	if g.r.Chance(70) {
 		return names[g.r.Intn(4)]
@@ -180,7 +189,7 @@ func (g *Gen) Next() impl.Op {
 		w int
 		k string
 	}
-	cs := []choice{{30, "trylock"}, {g.p.Blocking, "lock"}, {22, "unlock"}, {10, "renew"}, {16, "adv"}, {4, "disconnect"},
+	cs := []choice{{30, "trylock"}, {g.p.Blocking, "lock"}, {22, "unlock"}, {max(g.p.RenewW, 10), "renew"}, {16, "adv"}, {4, "disconnect"},
 		{g.p.Restart, "restart"}, {g.p.Gc, "gc"}, {g.p.Ipc, "ipcunlock"}, {g.p.NoSessionReq, "nosession"}}
 	if len(g.pending) > 0 {
 		cs = append(cs, choice{3, "cancel"})
@@ -227,6 +236,9 @@ func (g *Gen) Next() impl.Op {
 	case "renew":
 		n, k, _ := g.keyFor()
 		t := common.Pick(r, []int32{1, 2, 2, 3, 5})
+		if g.p.LeaseFocus {
+			t = common.Pick(r, []int32{1, 1, 2, 3, 5, 8})
+		}
 		if r.Chance(g.p.Invalid) {
 			t = common.Pick(r, []int32{0, -1, -2147483648})
 		}
